@@ -5,6 +5,7 @@ import concurrent.futures as cf
 import json, os, re, shutil, subprocess, sys, tempfile
 
 HERE = os.path.dirname(os.path.dirname(os.path.abspath(__file__)))
+BASE = "/repo/pyoda_time"  # replaced in main() by a snapshot of the package, so that commits to /repo made while the matrix runs do not leak into it
 SNAP = HERE  # replaced in main() by a snapshot of the checker, so that edits made while the matrix runs do not leak into it
 SEEDED = os.path.join(HERE, "seeded")
 
@@ -15,7 +16,7 @@ def run_one(name: str) -> tuple[str, int, list[str]]:
     prop = meta0.get("run_property") or meta0["property"]
     tmp = tempfile.mkdtemp(prefix="seedrun_")
     try:
-        shutil.copytree("/repo/pyoda_time", os.path.join(tmp, "pyoda_time"))
+        shutil.copytree(BASE, os.path.join(tmp, "pyoda_time"))
         r = subprocess.run(["git", "apply", "--unsafe-paths", "--directory", tmp, os.path.join(d, "patch.diff")], cwd=tmp, capture_output=True, text=True)
         if r.returncode != 0:
             r = subprocess.run(["patch", "-p1", "-s", "-i", os.path.join(d, "patch.diff")], cwd=tmp, capture_output=True, text=True)
@@ -41,8 +42,10 @@ def _snapshot() -> str:
 
 
 def main() -> None:
-    global SNAP
+    global SNAP, BASE
     SNAP = _snapshot()
+    shutil.copytree(BASE, os.path.join(SNAP, "base_pkg"), ignore=shutil.ignore_patterns("__pycache__"))
+    BASE = os.path.join(SNAP, "base_pkg")
     import atexit
     atexit.register(shutil.rmtree, SNAP, True)
     names = sorted(n for n in os.listdir(SEEDED) if os.path.isdir(os.path.join(SEEDED, n)))
